@@ -85,6 +85,9 @@ def installation(gen, rnd, kind=None):
                 inst["acs"][0]["ability"]["start"] = 0
         else:
             meta["old_multi"] = True
+    if (n_acs + total) % 4 == 0:
+        # a console with a long tale to tell about its software (the length byte is unsigned)
+        inst["version"] = (total % 2 == 0, ["1.2.4-beta.20240131"] * 7)
     # leftovers behind the terminator of fixed-width name fields (not even valid UTF-8)
     for a in inst["acs"]:
         if rnd.random() < 0.3:
